@@ -215,7 +215,11 @@ def check(ix, rep):
         _kernel_pair(rep, col, 'dense-online', don.visitor.module.rel, 'TimedOnce', 'TimedHistorically')
         # which segments are emitted now and which are carried over is not summarised: the two partners must treat it alike
         da, db = mirror.unread_self_attrs(ix, ca), mirror.unread_self_attrs(ix, cb)
+        unread = bool(col.errors)       # a partner whose kernel is not in the interpreted form cannot be cut into "merge step" and "rest": the textual comparison of
+        #                                 the rest would compare the rewritten partner with the old one -- no verdict (the analysis error is reported above)
         for meth in ('__init__', 'reset', 'update'):
+            if unread and meth == 'update':
+                continue
             fa, fb = ca.methods.get(meth), cb.methods.get(meth)
             if fa is not None and fb is not None:
                 if meth == 'update':
